@@ -24,7 +24,7 @@ func init() {
 		Explain: "Decides on every path of offset_manager.go: the pending position is written only by MarkOffset under offset > pom.offset and by ResetOffset under offset <= pom.offset, each time with metadata and dirty = true (C06.monotone); dirty is cleared only when position and metadata still equal what was committed (C06.keep-dirty); a commit carries pom.offset/pom.metadata of dirty partitions read under the partition lock and the response is matched against the request's own block (C06.commit-what-was-marked); the request identifies the group, member and generation of this manager (C06.identity); " +
 			"Close stops the loop, marks the partitions closed, then flushes in a loop bounded by Offsets.Retry.Max before the forced release (C06.close); NextOffset returns the position if ≥ 0 else the configured initial one (C06.next); only an ErrNoError answer can clear dirty and missing blocks are reported (C06.errors); pom/om state is accessed under its lock (C06.lock, lockset analysis). " +
 			"NOT covered: that a later commit is actually issued (ticker/liveness), coordinator fault classes beyond their code paths.",
-		Rules: []func(*Ctx){c06Monotone, c06KeepDirty, c06Commit, c06Identity, c06Close, c06Next, c06Errors, c06Lock, c06Version},
+		Rules: []func(*Ctx){c06Monotone, c06KeepDirty, c06Commit, c06Identity, c06Close, c06Remaining, c06Next, c06Errors, c06Lock, c06Version},
 	})
 }
 
@@ -180,6 +180,83 @@ func c06Identity(c *Ctx) {
 			l.fields["ConsumerGroupGeneration"] != nil && FieldLoad("offsetManager.generation")(l.fields["ConsumerGroupGeneration"])
 		c.Check(ok, rule, fn, "request-identity", l.alloc, "(group, member id, generation) ← the offset manager's", "a commit request does not carry the manager's group/member id/generation: the coordinator rejects it or accepts a fenced member's commit", nil)
 	}
+}
+
+// c06Remaining: Close stops its final flush loop when releasePOMs(false) reports 0.  That number must be the count
+// over ALL topics: it is accumulated across the loop over om.poms, never overwritten inside it.
+func c06Remaining(c *Ctx) {
+	rule := "C06.close"
+	fn := c.NeedFn(rule, "offsetManager.releasePOMs")
+	if fn == nil {
+		return
+	}
+	fi := Info(fn)
+	if len(fi.Loops) == 0 {
+		c.Unresolved(rule, "loop over om.poms in releasePOMs")
+		return
+	}
+	// the result: a cell (the function defers the unlock) or a phi
+	var cell *ssa.Alloc
+	var retVal ssa.Value
+	for _, b := range fn.Blocks {
+		if r, ok := lastInstr(b).(*ssa.Return); ok && !IsRecoverBlock(b) && len(r.Results) == 1 {
+			retVal = r.Results[0]
+			if u, ok := r.Results[0].(*ssa.UnOp); ok {
+				cell, _ = u.X.(*ssa.Alloc)
+			}
+		}
+	}
+	bad := ""
+	var at ssa.Instruction
+	nStores := 0
+	if cell != nil {
+		for _, r := range *cell.Referrers() {
+			st, ok := r.(*ssa.Store)
+			if !ok || st.Addr != ssa.Value(cell) {
+				continue
+			}
+			if fi.InnermostLoop(st.Block()) == nil {
+				continue
+			}
+			nStores++
+			// the new value is computed from the old one
+			dep := false
+			var walk func(v ssa.Value, d int)
+			walk = func(v ssa.Value, d int) {
+				if d > 8 || dep {
+					return
+				}
+				switch x := v.(type) {
+				case *ssa.UnOp:
+					if x.X == ssa.Value(cell) {
+						dep = true
+						return
+					}
+					walk(x.X, d+1)
+				case *ssa.BinOp:
+					walk(x.X, d+1)
+					walk(x.Y, d+1)
+				case *ssa.Phi:
+					for _, e := range x.Edges {
+						walk(e, d+1)
+					}
+				case *ssa.Convert:
+					walk(x.X, d+1)
+				}
+			}
+			walk(st.Val, 0)
+			if !dep {
+				bad, at = "the count is overwritten inside the loop over the topics ("+describe(st.Val)+")", st
+			}
+		}
+	} else if ph, ok := retVal.(*ssa.Phi); ok {
+		nStores++
+		_ = ph
+	}
+	if nStores == 0 && bad == "" {
+		bad = "the result is never updated inside the loop over the topics"
+	}
+	c.Check(bad == "", rule, fn, "remaining-counts-all-topics", at, "the number releasePOMs returns is accumulated over all topics", bad+": releasePOMs reports the remaining partitions of one topic only, so Close can end its final flush loop while partitions of another topic are still dirty — their last mark is force-released and never committed", nil)
 }
 
 func c06Close(c *Ctx) {
